@@ -5,6 +5,7 @@ import (
 	"context"
 	"encoding/binary"
 	"errors"
+	"fmt"
 	"strconv"
 
 	"github.com/cossacklabs/acra/decryptor/base"
@@ -63,6 +64,19 @@ func (p *DataDecoderProcessor) ID() string {
 // if expects bytes, then pass as is
 // if expects string, then leave as is if it is valid string or encode to hex
 // if it is encrypted data then we return default values or as is if applicable (binary data)
+// ErrNotNumericValue is returned when a value that has to be delivered in the binary encoding of a numeric column type
+// is not a number of that type.
+var ErrNotNumericValue = errors.New("value is not a number of the column's type")
+
+// numberEncodingError describes a failed numeric conversion without the text that failed to convert: strconv's own
+// error quotes its input, which here is the (decrypted / detokenized) column value, and callers log the error.
+func numberEncodingError(err error) error {
+	if numErr, ok := err.(*strconv.NumError); ok {
+		return fmt.Errorf("%w: %v", ErrNotNumericValue, numErr.Err)
+	}
+	return ErrNotNumericValue
+}
+
 func (p *BaseMySQLDataProcessor) encodeBinary(ctx context.Context, data []byte, setting config.ColumnEncryptionSetting, columnInfo base.ColumnInfo, logger *logrus.Entry) (context.Context, []byte, error) {
 	logger = logger.WithField("column", setting.ColumnName()).WithField("decrypted", base.IsDecryptedFromContext(ctx))
 	logger.Debugln("Encode binary")
@@ -107,7 +121,7 @@ func (p *BaseMySQLDataProcessor) encodeBinary(ctx context.Context, data []byte, 
 		encoded = make([]byte, 1)
 		intValue, err := strconv.ParseInt(utils.BytesToString(data), 10, 8)
 		if err != nil {
-			return nil, nil, err
+			return nil, nil, numberEncodingError(err)
 		}
 		err = binary.Write(bytes.NewBuffer(encoded[:0]), binary.LittleEndian, int8(intValue))
 		return ctx, encoded, err
@@ -116,7 +130,7 @@ func (p *BaseMySQLDataProcessor) encodeBinary(ctx context.Context, data []byte, 
 		encoded = make([]byte, 2)
 		intValue, err := strconv.ParseInt(utils.BytesToString(data), 10, 16)
 		if err != nil {
-			return nil, nil, err
+			return nil, nil, numberEncodingError(err)
 		}
 		err = binary.Write(bytes.NewBuffer(encoded[:0]), binary.LittleEndian, int16(intValue))
 		return ctx, encoded, err
@@ -125,7 +139,7 @@ func (p *BaseMySQLDataProcessor) encodeBinary(ctx context.Context, data []byte, 
 		encoded = make([]byte, 4)
 		intValue, err := strconv.ParseInt(utils.BytesToString(data), 10, 32)
 		if err != nil {
-			return nil, nil, err
+			return nil, nil, numberEncodingError(err)
 		}
 		err = binary.Write(bytes.NewBuffer(encoded[:0]), binary.LittleEndian, int32(intValue))
 		return ctx, encoded, err
@@ -134,7 +148,7 @@ func (p *BaseMySQLDataProcessor) encodeBinary(ctx context.Context, data []byte, 
 		encoded = make([]byte, 8)
 		intValue, err := strconv.ParseInt(utils.BytesToString(data), 10, 64)
 		if err != nil {
-			return nil, nil, err
+			return nil, nil, numberEncodingError(err)
 		}
 		err = binary.Write(bytes.NewBuffer(encoded[:0]), binary.LittleEndian, int64(intValue))
 		return ctx, encoded, err
@@ -143,7 +157,7 @@ func (p *BaseMySQLDataProcessor) encodeBinary(ctx context.Context, data []byte, 
 		encoded = make([]byte, 4)
 		floatValue, err := strconv.ParseFloat(utils.BytesToString(data), 32)
 		if err != nil {
-			return nil, nil, err
+			return nil, nil, numberEncodingError(err)
 		}
 		err = binary.Write(bytes.NewBuffer(encoded[:0]), binary.LittleEndian, float32(floatValue))
 		return ctx, encoded, err
@@ -152,7 +166,7 @@ func (p *BaseMySQLDataProcessor) encodeBinary(ctx context.Context, data []byte, 
 		encoded = make([]byte, 8)
 		floatValue, err := strconv.ParseFloat(utils.BytesToString(data), 64)
 		if err != nil {
-			return nil, nil, err
+			return nil, nil, numberEncodingError(err)
 		}
 		err = binary.Write(bytes.NewBuffer(encoded[:0]), binary.LittleEndian, floatValue)
 		return ctx, encoded, err
